@@ -54,6 +54,10 @@ def _facets(mod, tier, only=None):
 def _task(args):
     fi, tier, seed, shard, n_shards, known_sigs, scale = args
     facet = _MOD.FACETS[fi]
+    ts = getattr(_MOD, "THOROUGH_SCALE", 1)
+    if tier == "thorough" and ts != 1 and not getattr(facet, "_ts_applied", False):
+        facet.budget = dict(facet.budget, thorough=int(facet.budget.get("thorough", 0) * ts))
+        facet._ts_applied = True
     if scale != 1.0:
         facet.budget = {k: max(1, int(v * scale)) for k, v in facet.budget.items()}
     try:
